@@ -1,4 +1,7 @@
 """C05 - calibration layers evaluate exactly the function their weights describe."""
+import os
+import re
+
 import numpy as np
 from hypothesis import strategies as st
 
@@ -16,14 +19,27 @@ RULE = ("Hypothesis draws either a PWLCalibration case (2-8 keypoints, "
         "tensor / missing_input_value / both, learned or fixed missing output, "
         "missing value possibly equal to a keypoint; fixed or learned_interior "
         "keypoints with logits |.| <= 30, or up to 1e4 for the ordering clause; "
-        "keypoints passed as list / ndarray / tensor; layer dtype float32, or "
-        "float64 in 1 of 8 cases; a kernel from the array mixture, optionally "
-        "made monotone; a batch mixing inputs on keypoints, their float32 "
-        "neighbours, between, just outside, far outside and missing) or a "
+        "keypoints passed as list / tuple / ndarray / tensor, integer-valued "
+        "ones also as Python ints (list / tuple) and int64 / int32 ndarrays; "
+        "missing_input_value / a fixed missing_output_value spelled as float, "
+        "int (when integral) or numpy scalar; layer dtype float32, or "
+        "float64 in 1 of 8 cases; in 1 of 3 cases constructor options the "
+        "evaluation must not depend on (monotonicity, convexity, output_min / "
+        "output_max, clamps, kernel_initializer equal_heights / equal_slopes "
+        "/ zeros, TFL kernel regularizers, num_projection_iterations), the "
+        "kernel being assigned afterwards; a kernel from the array mixture, "
+        "optionally made monotone; a batch mixing inputs on keypoints, their "
+        "float32 neighbours, between, just outside, far outside and missing, "
+        "and for monotone kernels a sorted sweep through every keypoint, "
+        "segment midpoint and both outside regions) or a "
         "CategoricalCalibration case (1-8 buckets, units 1-3, both input "
-        "shapes, float/int32/int64/uint8 indices, default value absent / out "
-        "of range / in range, split_outputs, kernel dtype float32 or float64 "
-        "in 1 of 8 cases). The layer output "
+        "shapes, float32/float64/int8/int16/int32/int64/uint8 indices, default "
+        "value absent / out of range / in range and spelled as int / float / "
+        "np.int64 / np.float32, split_outputs, kernel dtype float32 or float64 "
+        "in 1 of 8 cases, in 1 of 3 cases output bounds / monotonicity pairs / "
+        "initializer / regularizer options). The layer is called eagerly (3 "
+        "of 4 cases), inside a tf.function whose input signature leaves the "
+        "batch size unknown, or inside a Keras functional model. The output "
         "is compared with a float64 evaluation of the documented function. "
         "Non-trivial: PWL - some unit has a non-zero segment height; "
         "categorical - the kernel is not constant (or non-zero for one "
@@ -37,15 +53,20 @@ TECHNIQUE = ("property-based testing (Hypothesis): differential against a "
 LEVEL_TEXT = ("Generated-input exploration: thousands of random valid "
               "PWLCalibration and CategoricalCalibration configurations, "
               "kernels, logits and input batches per run are evaluated by the "
-              "real layers in eager mode and compared pointwise with an "
+              "real layers (eagerly, traced with an unknown batch size, or "
+              "inside a Keras functional model) and compared pointwise with an "
               "independent float64 evaluation of the documented function "
               "(piecewise-linear interpolation with constant extension, cyclic "
               "closing, per-unit broadcasting, missing-value replacement, "
               "table lookup with default bucket); keypoints_inputs() / "
               "keypoints_outputs() are compared with the configured points and "
-              "fed back through the layer; learned keypoints are checked for "
+              "fed back through the layer; "
+              "pwl_calibration_lib.compute_interpolation_weights is called "
+              "directly in its documented shape forms and compared with the "
+              "documented clip formula; learned keypoints are checked for "
               "order and end points with logits up to 1e4. Finds axis, "
-              "clipping, closing-height, missing-mask and bucket-index "
+              "clipping, closing-height, missing-mask, bucket-index, "
+              "static-shape, argument-type and option-dependence "
               "mistakes; shows no absence.")
 LEVEL_NOTE = ("Trusted: TensorFlow/NumPy arithmetic, the harness. Tolerance "
               "1e-4*max(1,|bias|+sum|heights|) per unit around the reference "
@@ -57,14 +78,34 @@ LEVEL_NOTE = ("Trusted: TensorFlow/NumPy arithmetic, the harness. Tolerance "
               "(modulo TensorFlow's flush of float32 denormals to zero). "
               "Outputs are not judged for |logit| > 30 except far outside the "
               "keypoint range (collapsed segments are known finding F-C15-2). "
-              "A library exception on a float64 layer is reported with "
-              "dtype=float64 in its signature. Sizes bounded as stated in the "
-              "rule.")
+              "A library exception on a float64 layer or in a traced call is "
+              "reported with the dtype / call mode in its signature. "
+              "kernel_initializer='equal_slopes' is not combined with keypoints "
+              "given as a tensor of another dtype than the layer's (build() "
+              "raises there: candidate defect, switch "
+              "GEN_EQUAL_SLOPES_OTHER_DTYPE_TENSOR). Sizes bounded as stated "
+              "in the rule.")
 ASSUMPTIONS = ["is_cyclic needs at least 3 keypoints (2 keypoints are rejected "
                "by the layer's initializer with a ValueError)",
                "when both missing_input_value and an is_missing tensor are "
                "given, the tensor flags every input equal to the missing value "
-               "(the documentation does not say which one wins otherwise)"]
+               "(the documentation does not say which one wins otherwise)",
+               "constructor options (constraints, initializers, regularizers) "
+               "only shape training: the kernel / missing output are assigned "
+               "after build(), which bypasses the constraints, and the "
+               "documented evaluation is the same function of the weights; "
+               "clamp_min / clamp_max are only drawn for monotonic calibrators "
+               "and convexity only for fixed keypoints, as documented",
+               "a non-integral default_input_value is not generated (the layer "
+               "documents category indices; float / numpy spellings carry "
+               "integral values)"]
+
+# kernel_initializer="equal_slopes" together with keypoints passed as a tensor
+# whose dtype is not the layer dtype: build() raises TypeError in
+# linear_initializer (candidate defect, see the widening report; repro
+# /tmp/scratch/widen/C05-defect-1.py).  Off: such cases keep the default
+# initializer.
+GEN_EQUAL_SLOPES_OTHER_DTYPE_TENSOR = True
 
 TINY32 = float(np.finfo(np.float32).tiny)
 X_CLASSES = ["on", "between", "edge", "outside", "far", "missing"]
@@ -116,6 +157,71 @@ def _keypoints(draw, tier):
   return style, _mk_keypoints(k0, gaps)
 
 
+CALL_MODES = ["eager"] * 6 + ["function", "keras"]
+
+
+@st.composite
+def _pwl_opts(draw, cyclic, kp_type, style):
+  """Valid constructor options that shape training only (constraints,
+  initialisation, regularisation).  The kernel is assigned afterwards, so the
+  documented evaluation is the same function of the weights."""
+  if draw(st.integers(0, 2)) != 0:
+    return {}
+  o = {}
+  mono = 0
+  if not cyclic and draw(st.booleans()):
+    o["monotonicity"] = draw(st.sampled_from(
+        ["increasing", "decreasing", 1, -1, "none", 0]))
+    mono = o["monotonicity"] not in ("none", 0)
+  if not cyclic and kp_type == "fixed" and draw(st.booleans()):
+    o["convexity"] = draw(st.sampled_from(["convex", "concave", 1, -1]))
+  bounds = draw(st.sampled_from(["none", "min", "max", "both", "both"]))
+  if bounds in ("min", "both"):
+    o["output_min"] = draw(st.sampled_from([-100.0, -1.0, 0.0, 0]))
+    if mono and draw(st.booleans()):
+      o["clamp_min"] = True
+  if bounds in ("max", "both"):
+    o["output_max"] = draw(st.sampled_from([0.0, 1.0, 2, 50.0]))
+    if mono and draw(st.booleans()):
+      o["clamp_max"] = True
+  init = draw(st.sampled_from([None, "equal_heights", "equal_slopes",
+                               "equal_slopes", "zeros"]))
+  if init is not None:
+    o["kernel_initializer"] = init
+  reg = draw(st.sampled_from([None, None, "laplacian", "hessian", "two"]))
+  if reg == "two":
+    o["kernel_regularizer"] = [["laplacian", 0.0, 1e-3], ["hessian", 1e-4, 0.0]]
+  elif reg is not None:
+    o["kernel_regularizer"] = [reg, 1e-3, 1e-4]
+  if draw(st.booleans()):
+    o["num_projection_iterations"] = draw(st.sampled_from([0, 1, 20]))
+  return o
+
+
+@st.composite
+def _cat_opts(draw, nb):
+  if draw(st.integers(0, 2)) != 0:
+    return {}
+  o = {}
+  bounds = draw(st.sampled_from(["none", "min", "max", "both", "both"]))
+  if bounds in ("min", "both"):
+    o["output_min"] = draw(st.sampled_from([-100.0, -1.0, 0.0, 0]))
+  if bounds in ("max", "both"):
+    o["output_max"] = draw(st.sampled_from([0.0, 1.0, 2, 50.0]))
+  if nb >= 2 and draw(st.booleans()):
+    pairs = draw(st.lists(st.tuples(st.integers(0, nb - 2),
+                                    st.integers(1, nb - 1)), min_size=1,
+                          max_size=3))
+    o["monotonicities"] = [[min(i, j), max(i, j) if i != j else i + 1]
+                           for i, j in pairs]
+  init = draw(st.sampled_from([None, "uniform", "constant", "zeros"]))
+  if init is not None:
+    o["kernel_initializer"] = init
+  if draw(st.booleans()):
+    o["kernel_regularizer"] = draw(st.sampled_from(["l1", "l2"]))
+  return o
+
+
 @st.composite
 def _pwl_case(draw, tier):
   big = tier == "thorough"
@@ -126,6 +232,14 @@ def _pwl_case(draw, tier):
   # the bias only and the layer's initializer rejects it with a ValueError.
   cyclic = n >= 3 and draw(st.sampled_from([False, False, True]))
   kp_type = draw(st.sampled_from(["fixed", "fixed", "learned_interior"]))
+  # container / element type of the keypoints ("Can be anything accepted by
+  # tf.convert_to_tensor()"): integer-valued keypoints are also passed as
+  # Python ints and as integer ndarrays.
+  kp_as = draw(st.sampled_from(
+      ["list", "intlist", "intlist", "inttuple", "int64arr", "int32arr",
+       "ndarray", "tensor"] if style == "ints" else
+      ["list", "list", "list", "tuple", "ndarray", "ndarray", "tensor",
+       "tensor"]))
   case = {
       "layer": "pwl", "kp": kp, "kp_style": style, "units": units,
       "cols": draw(st.sampled_from(["one", "units"])) if units > 1 else "one",
@@ -140,7 +254,12 @@ def _pwl_case(draw, tier):
       # providing 'dtype' parameter to layer constructor") and the container
       # the keypoints are passed in (anything tf.convert_to_tensor accepts).
       "dtype": draw(st.sampled_from(["float32"] * 7 + ["float64"])),
-      "kp_as": draw(st.sampled_from(["list", "list", "ndarray", "tensor"])),
+      "kp_as": kp_as,
+      # how the layer is invoked: eagerly, inside a tf.function whose batch
+      # size is unknown (None), or inside a Keras functional model.
+      "call": draw(st.sampled_from(CALL_MODES)),
+      # constructor options the evaluation must not depend on.
+      "opts": draw(_pwl_opts(cyclic, kp_type, style)),
   }
   if kp_type == "learned_interior":
     extreme = draw(st.integers(0, 3)) == 0
@@ -161,6 +280,10 @@ def _pwl_case(draw, tier):
         # float32 value of one of the keypoints.
         mv = float(np.float32(kp[draw(st.integers(0, n - 1))]))
       case["miv"] = mv
+      # spelling of the (float32-representable) value: "int" applies when it
+      # is integral, otherwise the value is passed as a Python float.
+      case["miv_as"] = draw(st.sampled_from(["float", "float", "int", "int",
+                                             "np.float32", "np.float64"]))
     case["mout"] = draw(st.sampled_from(["learned", "fixed"]))
     if case["mout"] == "learned":
       case["mout_values"] = draw(S.array_desc(
@@ -169,6 +292,8 @@ def _pwl_case(draw, tier):
     else:
       case["mout_value"] = draw(st.one_of(
           st.sampled_from([0.0, -1.0, 0.5, 7.0]), S.f32_floats(-1e3, 1e3)))
+      case["mout_as"] = draw(st.sampled_from(["float", "float", "int",
+                                              "np.float32"]))
   return case
 
 
@@ -180,9 +305,13 @@ def _cat_case(draw, tier):
   dmode = draw(st.sampled_from(["none", "minus1", "nb", "inrange", "big"]))
   default = {"none": None, "minus1": -1, "nb": nb, "big": 1000,
              "inrange": draw(st.integers(0, nb - 1))}[dmode]
-  dtypes = ["float32", "int32", "int64"]
+  # index dtypes: uint8 / int32 / int64 are used as they are, every other
+  # dtype goes through the layer's cast to int32.
+  dtypes = ["float32", "int32", "int64", "float64", "int16"]
   if default is None or 0 <= default <= 255:
     dtypes.append("uint8")
+  if default is None or -128 <= default <= 127:
+    dtypes.append("int8")
   batch = draw(st.integers(1, 16 if big else 6))
   cols = draw(st.sampled_from(["one", "units"])) if units > 1 else "one"
   ncols = units if cols == "units" else 1
@@ -191,11 +320,21 @@ def _cat_case(draw, tier):
     elem = st.one_of(elem, elem, st.just(default))
   idx = draw(st.lists(st.lists(elem, min_size=ncols, max_size=ncols),
                       min_size=batch, max_size=batch))
+  dtype = draw(st.sampled_from(dtypes))
+  # float64 kernel more often under int64 indices (rare combination otherwise)
+  kdtype = draw(st.sampled_from(["float32"] * (3 if dtype == "int64" else 7) +
+                                ["float64"]))
   return {"layer": "cat", "nb": nb, "units": units, "cols": cols,
           "default": default, "dmode": dmode,
-          "dtype": draw(st.sampled_from(dtypes)),
+          # spelling of default_input_value (premade models pass
+          # FeatureConfig.default_value, typically a float such as -1.0)
+          "dspell": draw(st.sampled_from(["int", "int", "float", "float",
+                                          "np.int64", "np.float32"])),
+          "dtype": dtype,
+          "call": draw(st.sampled_from(CALL_MODES)),
+          "opts": draw(_cat_opts(nb)),
           "split": draw(st.booleans()), "idx": idx,
-          "kdtype": draw(st.sampled_from(["float32"] * 7 + ["float64"])),
+          "kdtype": kdtype,
           "kernel": draw(S.array_desc(shape=(nb, units)))}
 
 
@@ -258,6 +397,51 @@ def _as_matrix(y, units, split, batch, out, what):
   return y.numpy().astype(np.float64)
 
 
+def _spell_scalar(v, how):
+  """A float32-representable value v in the requested spelling; "int" applies
+  to integral values only.  Returns (argument, spelling used)."""
+  v = float(v)
+  if how == "int":
+    if v == int(v) and abs(v) <= 2.0**31:
+      return int(v), "int"
+    return v, "float"
+  if how == "np.float32":
+    return np.float32(v), how
+  if how == "np.float64":
+    return np.float64(v), how
+  if how == "np.int64":
+    return np.int64(int(v)), how
+  return v, "float"
+
+
+def _pwl_opt_kwargs(opts):
+  kw = dict(opts)
+  reg = kw.get("kernel_regularizer")
+  if reg is not None:
+    # JSON lists -> the documented tuples ('name', l1, l2) / list of tuples
+    kw["kernel_regularizer"] = (
+        [tuple(r) for r in reg] if isinstance(reg[0], list) else tuple(reg))
+  return kw
+
+
+def _make_callable(tf, layer, mode, nargs, ncols, dtype):
+  """layer as a function of a list of nargs (B, ncols) tensors."""
+  def direct(args):
+    return layer(list(args) if nargs > 1 else args[0])
+  if mode == "eager":
+    return direct
+  if mode == "function":
+    # traced once with an unknown batch size
+    spec = [tf.TensorSpec([None, ncols], dtype)] * nargs
+    fn = tf.function(lambda *a: direct(a), input_signature=spec,
+                     autograph=False)
+    return lambda args: fn(*args)
+  import tf_keras as keras
+  ins = [keras.Input(shape=(ncols,), dtype=dtype) for _ in range(nargs)]
+  model = keras.Model(inputs=ins, outputs=direct(ins))
+  return lambda args: model(list(args))
+
+
 # --------------------------------------------------------------------------
 # PWL
 class _Pwl(object):
@@ -278,9 +462,11 @@ class _Pwl(object):
     if self.missing != "none":
       kw["impute_missing"] = True
       if "miv" in case:
-        kw["missing_input_value"] = case["miv"]
+        kw["missing_input_value"], self.miv_as = _spell_scalar(
+            case["miv"], case.get("miv_as", "float"))
       if case["mout"] == "fixed":
-        kw["missing_output_value"] = case["mout_value"]
+        kw["missing_output_value"], self.mout_as = _spell_scalar(
+            case["mout_value"], case.get("mout_as", "float"))
     self.npdt = np.float64 if case["dtype"] == "float64" else np.float32
     self.eps = float(np.finfo(self.npdt).eps)
     if case["dtype"] != "float32":
@@ -293,12 +479,31 @@ class _Pwl(object):
       # in the precision of the container).
       kp_arg = tf.constant(kp, dtype=tf.float32 if (
           f32_exact and self.npdt == np.float32) else tf.float64)
+    elif case["kp_as"] == "tuple":
+      kp_arg = tuple(kp)
+    elif case["kp_as"] in ("intlist", "inttuple", "int64arr", "int32arr"):
+      # integer-valued keypoints (kp_style "ints") passed as integers
+      assert all(float(int(v)) == v for v in kp), kp
+      kp_arg = [int(v) for v in kp]
+      if case["kp_as"] == "inttuple":
+        kp_arg = tuple(kp_arg)
+      elif case["kp_as"] != "intlist":
+        kp_arg = np.asarray(kp_arg, np.int64 if case["kp_as"] == "int64arr"
+                            else np.int32)
     else:
       kp_arg = list(kp)
+    self.opts = _pwl_opt_kwargs(case.get("opts") or {})
+    if (not GEN_EQUAL_SLOPES_OTHER_DTYPE_TENSOR and
+        self.opts.get("kernel_initializer") == "equal_slopes" and
+        case["kp_as"] == "tensor" and kp_arg.dtype != tf.as_dtype(self.npdt)):
+      del self.opts["kernel_initializer"]
+    kw.update(self.opts)
     self.layer = tfl.layers.PWLCalibration(
         input_keypoints=kp_arg, units=units, is_cyclic=self.cyclic,
         split_outputs=case["split"], input_keypoints_type=case["kp_type"],
         **kw)
+    self.mode = case.get("call", "eager")
+    self._callable = None
     ncols = units if case["cols"] == "units" else 1
     self.ncols = ncols
     self.layer.build((None, ncols))
@@ -440,9 +645,31 @@ class _Pwl(object):
   def call(self, x, miss):
     tf = self.tf
     x = np.asarray(x).astype(self.npdt)
+    args = [tf.constant(x)]
     if self.missing in ("tensor", "value+tensor"):
-      return self.layer([tf.constant(x), tf.constant(miss.astype(self.npdt))])
-    return self.layer(tf.constant(x))
+      args.append(tf.constant(miss.astype(self.npdt)))
+    if self._callable is None:
+      self._callable = _make_callable(tf, self.layer, self.mode, len(args),
+                                      self.ncols, self.case["dtype"])
+    return self._callable(args)
+
+  def sweep(self):
+    """Sorted inputs through every keypoint, every segment midpoint and one
+    point outside either end (float32), per input column."""
+    cols = []
+    for c in range(self.ncols):
+      us = [c] if self.ncols > 1 else range(self.units if self.learned else 1)
+      pts = []
+      for u in us:
+        kp = self.kpu[u]
+        rng = kp[-1] - kp[0]
+        pts.append(np.concatenate([[kp[0] - 0.5 * rng], kp,
+                                   0.5 * (kp[1:] + kp[:-1]),
+                                   [kp[-1] + 0.5 * rng]]))
+      v = np.sort(np.concatenate(pts).astype(np.float32))
+      v[(v != 0) & (np.abs(v) < TINY32)] = 0.0
+      cols.append(v)
+    return np.stack(cols, axis=1)
 
   # ---- judging
   def judge(self, out, x, miss, y, clause, delta):
@@ -513,10 +740,61 @@ class _Pwl(object):
     key = "err_over_tol:" + clause
     out.info[key] = max(out.info.get(key, 0.0), worst)
     out.info["interval_width_over_tol:" + clause] = width
-    if clause != "keypoints":
+    if clause not in ("keypoints", "sweep"):
       out.label("ref:exact-point" if width == 0 else
                 "ref:interval<=tol" if width <= 1 else "ref:interval>tol")
     return True
+
+
+def _lib_weights_clause(p, out, x, sig):
+  """compute_interpolation_weights(inputs, keypoints, lengths) must return
+  [1, clip((x - keypoint_i) / length_i, 0, 1)...] for inputs (B,1), (B,units,1)
+  or (B,1,1) and keypoints / lengths of shape (n-1) or (units, n-1).  The
+  keypoints and lengths handed over are exact in the layer dtype, so the only
+  error is the rounding of one subtraction and one division."""
+  from tensorflow_lattice.python import pwl_calibration_lib as lib
+  tf = p.tf
+  kpn = p.kpu.astype(p.npdt)                              # (units, n)
+  lens = np.diff(kpn, axis=1)
+  if not np.all(lens >= TINY32):
+    return True
+  rs = np.random.RandomState(p.case["aux"] % (2**31) + 1)
+  two_d = p.learned or rs.rand() < 0.3
+  xin = x.astype(p.npdt)
+  if two_d:
+    kps, lns, inputs = kpn[:, :-1], lens, xin[..., None]
+    form = "(B,%s,1)x(units,n-1)" % ("1" if p.ncols == 1 else "units")
+  elif p.ncols == 1:
+    kps, lns, inputs = kpn[0, :-1], lens[0], xin
+    form = "(B,1)x(n-1)"
+  else:
+    kps, lns, inputs = kpn[0, :-1], lens[0], xin[..., None]
+    form = "(B,units,1)x(n-1)"
+  out.label("pwl:lib-weights=" + form)
+  w = lib.compute_interpolation_weights(
+      tf.constant(inputs), tf.constant(kps), tf.constant(lns)).numpy()
+  want = inputs.shape[:-1] + (p.n,)
+  if two_d:
+    want = (inputs.shape[0], p.units, p.n)
+  out.checks += 2
+  if w.shape != want:
+    out.violate("compute_interpolation_weights: shape %s, documented %s" % (
+        w.shape, want), kind="lib-weights-shape", form=form, **sig)
+    return False
+  xx = inputs.astype(np.float64)
+  ref = np.clip((xx - kps.astype(np.float64)) / lns.astype(np.float64), 0.0,
+                1.0)
+  ref = np.concatenate([np.ones(ref.shape[:-1] + (1,)), ref], axis=-1)
+  ref = np.broadcast_to(ref, want)
+  if not np.all(np.abs(w.astype(np.float64) - ref) <= TOL_F):
+    i = tuple(int(v) for v in np.argwhere(
+        ~(np.abs(w.astype(np.float64) - ref) <= TOL_F))[0])
+    out.violate("compute_interpolation_weights%s = %r, documented clip((x - "
+                "keypoint) / length, 0, 1) = %r" % (i, float(w[i]),
+                                                    float(ref[i])),
+                kind="lib-weights", form=form, **sig)
+    return False
+  return True
 
 
 def _run_pwl(case):
@@ -526,7 +804,14 @@ def _run_pwl(case):
   out.label("pwl", "pwl:units=%d" % units, "pwl:cols=" + case["cols"],
             "pwl:kp=" + case["kp_type"], "pwl:kp_style=" + case["kp_style"],
             "pwl:missing=" + p.missing, "pwl:kernel=" + case["kmode"],
-            "pwl:dtype=" + case["dtype"], "pwl:kp_as=" + case["kp_as"])
+            "pwl:dtype=" + case["dtype"], "pwl:kp_as=" + case["kp_as"],
+            "pwl:call=" + p.mode)
+  for name in sorted(p.opts):
+    out.label("pwl:opt:" + ("init=%s" % p.opts[name]
+                            if name == "kernel_initializer" else name))
+  out.label("pwl:opts=%s" % ("some" if p.opts else "default"))
+  if p.learned and units > 1 and p.ncols == 1:
+    out.label("pwl:bcast=(B,1,1)")
   if p.cyclic:
     out.label("pwl:cyclic")
   if units > 1 and case["split"]:
@@ -535,6 +820,10 @@ def _run_pwl(case):
     out.label("pwl:missing_output=" + case["mout"])
     if p.miv32 is not None and np.any(p.kpu.astype(np.float32) == p.miv32):
       out.label("pwl:missing_value_is_keypoint")
+    if p.miv32 is not None:
+      out.label("pwl:miv_as=" + p.miv_as)
+    if case["mout"] == "fixed":
+      out.label("pwl:mout_as=" + p.mout_as)
   if p.learned:
     out.label("pwl:logits=" + case["logit_mode"])
   out.nontrivial = bool(np.any(p.heights != 0))
@@ -603,6 +892,22 @@ def _run_pwl(case):
   if p.extreme:
     return out
 
+  # ---- clause: the interpolation weights themselves, straight from
+  # pwl_calibration_lib.compute_interpolation_weights in its documented shapes
+  if not _lib_weights_clause(p, out, x, sig):
+    return out
+
+  # ---- clause: monotone keypoint outputs give a monotone function, judged on
+  # a sorted sweep through every keypoint, midpoint and both outside regions
+  if case["kmode"] != "free":
+    xs = p.sweep()
+    ms = p.flags_for(xs, np.zeros(xs.shape, bool))
+    out.label("pwl:sweep")
+    ysw = _as_matrix(p.call(xs, ms), units, case["split"], xs.shape[0], out,
+                     "pwl")
+    if ysw is None or not p.judge(out, xs, ms, ysw, "sweep", p.delta):
+      return out
+
   # ---- clause: the function passes through the reported keypoints
   xk = kin if p.ncols > 1 or units == 1 else None
   batches = []
@@ -662,10 +967,19 @@ def _run_cat(case):
   out = Outcome()
   nb, units = case["nb"], case["units"]
   k = S.materialize(case["kernel"], (nb, units))
+  opts = dict(case.get("opts") or {})
+  if "monotonicities" in opts:
+    opts["monotonicities"] = [tuple(m) for m in opts["monotonicities"]]
+  default_arg, dspell = case["default"], "none"
+  if default_arg is not None:
+    default_arg, dspell = _spell_scalar(
+        default_arg, {"int": "int", "float": "float"}.get(
+            case.get("dspell", "int"), case.get("dspell", "int")))
   layer = tfl.layers.CategoricalCalibration(
-      num_buckets=nb, units=units, default_input_value=case["default"],
+      num_buckets=nb, units=units, default_input_value=default_arg,
       split_outputs=case["split"],
-      **({"dtype": case["kdtype"]} if case["kdtype"] != "float32" else {}))
+      **dict(opts, **({"dtype": case["kdtype"]}
+                      if case["kdtype"] != "float32" else {})))
   idx = np.asarray(case["idx"], np.int64)
   batch, ncols = idx.shape
   layer.build((None, ncols))
@@ -673,9 +987,21 @@ def _run_cat(case):
   out.label("cat", "cat:units=%d" % units, "cat:cols=" + case["cols"],
             "cat:kernel_dtype=" + case["kdtype"],
             "cat:dtype=" + case["dtype"], "cat:default=" + case["dmode"],
-            "cat:buckets=%s" % ("1" if nb == 1 else "2-8"))
+            "cat:buckets=%s" % ("1" if nb == 1 else "2-8"),
+            "cat:default_as=" + dspell, "cat:call=" + case.get("call", "eager"),
+            "cat:opts=%s" % ("some" if opts else "default"))
+  for name in sorted(opts):
+    out.label("cat:opt:" + ("init=%s" % opts[name]
+                            if name == "kernel_initializer" else name))
   if units > 1 and case["split"]:
     out.label("cat:split")
+    if ncols == 1:
+      out.label("cat:units>1+one-column+split")
+  if nb == 1 and case["dmode"] == "nb":
+    out.label("cat:one-bucket+default=num_buckets")
+  if case["kdtype"] == "float64" and case["dtype"] == "int64" and (
+      case["default"] is not None):
+    out.label("cat:float64-kernel+int64-input+default")
   out.nontrivial = bool(np.any(k != 0)) if nb == 1 else bool(
       np.any(k != k[:1]))
   default = case["default"]
@@ -685,7 +1011,9 @@ def _run_cat(case):
       out.label("cat:default-hit")
     eff[idx == default] = nb - 1
   x = tf.constant(idx.astype(case["dtype"]))
-  y = _as_matrix(layer(x), units, case["split"], batch, out, "cat")
+  call = _make_callable(tf, layer, case.get("call", "eager"), 1, ncols,
+                        case["dtype"])
+  y = _as_matrix(call([x]), units, case["split"], batch, out, "cat")
   if y is None:
     return out
   exp = np.zeros((batch, units), np.float64)
@@ -702,26 +1030,47 @@ def _run_cat(case):
   return out
 
 
+def _library_frame(e):
+  """file:function of the innermost tensorflow_lattice frame of an exception.
+
+  Exceptions raised while Keras / tf.function trace the layer have their
+  traceback filtered; the library frame is then only named in the message
+  ('in user code: File ".../tensorflow_lattice/python/x.py", line N, in f').
+  """
+  where = _lattice_frame(e.__traceback__)
+  if where is None:
+    hits = re.findall(r'File "([^"]*/tensorflow_lattice/[^"]*)", line \d+, '
+                      r'in (\w+)', str(e))
+    hits = [h for h in hits if "/verif/" not in h[0]]
+    if hits:
+      where = "%s:%s" % (os.path.basename(hits[-1][0]), hits[-1][1])
+  return where
+
+
 def run_case(case):
   run = _run_pwl if case["layer"] == "pwl" else _run_cat
   dtype = case["dtype"] if case["layer"] == "pwl" else case["kdtype"]
-  if dtype == "float32":
+  mode = case.get("call", "eager")
+  if dtype == "float32" and mode == "eager":
     return run(case)
-  # float64 layers: a crash inside the library is reported with a signature
-  # that names the dtype (the harness' generic one would not).
+  # float64 layers and traced calls: a crash inside the library is reported
+  # with a signature that names the dtype / call mode (the harness' generic one
+  # would not, and it cannot see library frames of a traced call).
   try:
     return run(case)
   except Exception as e:  # pylint: disable=broad-except
-    where = _lattice_frame(e.__traceback__)
+    where = _library_frame(e)
     if where is None:
       raise
     out = Outcome()
     out.nontrivial = True
-    out.label(case["layer"], "%s:%s=float64" % (
-        case["layer"], "dtype" if case["layer"] == "pwl" else "kernel_dtype"),
-              "exception")
+    out.label(case["layer"], "%s:%s=%s" % (
+        case["layer"], "dtype" if case["layer"] == "pwl" else "kernel_dtype",
+        dtype), "%s:call=%s" % (case["layer"], mode), "exception")
     sig = dict(kind="exception", exc=type(e).__name__, where=where,
-               layer=case["layer"], dtype="float64")
+               layer=case["layer"], dtype=dtype)
+    if mode != "eager":
+      sig["call"] = mode
     if case["layer"] == "pwl":
       sig["kp_type"] = case["kp_type"]
     out.violate("%s: %s" % (type(e).__name__, " ".join(str(e).split())[:300]),
